@@ -351,6 +351,15 @@ fn handle(line: &str) -> String {
             None => "bad-op".to_string(),
         },
         "eval" => rawr::search::eval::eval(&pos).to_string(),
+        "apply" if r.len() == 1 => {
+            let mut p = pos;
+            let mut hist: Vec<u64> = vec![];
+            let mut it = r[0].split_ascii_whitespace();
+            // NB: uci::moves prints "info string unknown move" on the process stdout; replies are
+            // therefore prefixed with "@ " and everything else is ignored by the reader.
+            rawr::uci::moves::moves(&mut it, &mut p, &mut hist);
+            format!("{} u={} h={}", show_pos(&p), b01(hist.is_empty()), hist.len())
+        }
         "qs" if r.len() == 2 => {
             let mut stats = Stats::default();
             let a = r[0].parse::<i32>().unwrap_or(0);
@@ -514,10 +523,11 @@ fn main() {
             Ok(l) => l,
             Err(_) => break,
         };
+        out.flush().unwrap();
         let res = panic::catch_unwind(|| handle(&line));
         match res {
-            Ok(s) => writeln!(out, "{}", s).unwrap(),
-            Err(_) => writeln!(out, "PANIC").unwrap(),
+            Ok(s) => writeln!(out, "@ {}", s).unwrap(),
+            Err(_) => writeln!(out, "@ PANIC").unwrap(),
         }
     }
     out.flush().unwrap();
